@@ -58,7 +58,7 @@ def c01_slices(tier):
         7, Shapes="{<<2,2>>, <<3,2>>, <<3,3>>}",
         IdSets=subsets_of_size(1, 6, [2, 3]) if th else "{S \\in SUBSET {1,2,5,6} : Cardinality(S) \\in {2,3}}",
         KeyChoices="{3}", CoeffChoices="{0,5}", RandChoices="{1,2}" if th else "{1}", Msgs="{<<104,105>>}",
-        MaxExtra="1", DomH3="{2,5}", DomH1="{1,5}", DomH2="{0,3}", EMIT="TRUE")))
+        ListOrders='{"asc","rot"}', MaxExtra="1", DomH3="{2,5}", DomH1="{1,5}", DomH2="{0,3}", EMIT="TRUE")))
     # B: every key, polynomial and nonce value for one identifier set
     sl.append(dict(name="B_values", module="C01", invariants=C01_INV, consts=consts(
         7, Shapes="{<<3,2>>}", IdSets="{{2,3,5}}", KeyChoices="1..6", CoeffChoices=ZQ(7),
@@ -71,8 +71,14 @@ def c01_slices(tier):
     # D: shape slice (t = 4, |S| in {4,5}) in another field
     sl.append(dict(name="D_shape_t4", module="C01", invariants=C01_INV, consts=consts(
         11, Shapes="{<<4,4>>, <<5,4>>}", IdSets="{{1,2,3,4}, {2,5,7,10}, {1,2,3,4,5}, {1,3,6,8,10}}",
-        KeyChoices="{7}", CoeffChoices="{3,0}" if th else "{3}", RandChoices="{1}", Msgs=LONGMSG, MaxExtra="1",
+        KeyChoices="{7}", CoeffChoices="{3,0}" if th else "{3}", RandChoices="{1}", Msgs=LONGMSG, MaxExtra="1", ListOrders='{"asc","desc"}',
         DomH3="{4,9}", DomH1="{3,8}", DomH2="{5}", EMIT="TRUE")))
+    # S: size sweep: every signer-set size 2..N (t = n = |S|, one behaviour per size) in Toy<257>
+    sizes = "(2..66) \\cup {100,127,128,129}" if th else "(2..34) \\cup {63,64,65}"
+    sl.append(dict(name="S_size_sweep", module="C01", invariants=C01_INV, timeout=3000, consts=consts(
+        257, Shapes="{<<n,n>> : n \\in %s}" % sizes, IdSets="{1..n : n \\in %s}" % sizes, KeyChoices="{200}",
+        CoeffChoices="{3}", RandChoices="{1}", Msgs="{<<104,105>>}", MaxExtra="0", DomH3="{77}", DomH1="{5}",
+        DomH2="{100}", EMIT="TRUE")))
     sl += life_slices(tier)
     if th:
         sl.append(dict(name="E_q11_values", module="C01", invariants=C01_INV, timeout=3000, consts=consts(
@@ -83,6 +89,13 @@ def c01_slices(tier):
             13, Shapes="{<<3,2>>, <<4,3>>}", IdSets=subsets_of_size(1, 12, [3, 4]).replace("1..12", "{1,2,5,11,12}"),
             KeyChoices="{5}", CoeffChoices="{0,9}", RandChoices="{1,2}", Msgs="{<<1>>}", MaxExtra="1",
             DomH3="{2,5}", DomH1="{1,6}", DomH2="{4}", EMIT="TRUE")))
+    return _c01_defaults(sl)
+
+
+def _c01_defaults(sl):
+    for s in sl:
+        if s.get("module") == "C01":
+            s["consts"].setdefault("ListOrders", '{"asc"}')
     return sl
 
 
@@ -252,7 +265,7 @@ C07_FATAL = {"dkg1:ok", "dkg2:ok", "dkg3:ok", "dkg3:kp", "dkg3:pkp", "dkg2:r2", 
 # ------------------------------------------------------------------------ C08
 C08_INV = ["InvNoSilentAccept", "InvCulprits", "InvCaught", "Emit"]
 ALLFAULTS = ('{"none","r1field","r1len","r1swap","r1graft","r1own","r1unknown","r1missing","r1surplus","r1late",'
-             '"r2delta","r2route","r2own","r2unknown","r2missing","r2surplus"}')
+             '"r2delta","r2route","r2own","r2unknown","r2missing","r2surplus","bothmissing","bothsurplus"}')
 
 
 def c08_slices(tier):
@@ -261,11 +274,17 @@ def c08_slices(tier):
     # A: every (receiver, sender) pair x every fault kind x every field x every wrong value
     sl.append(dict(name="A_all_faults", module="C08", invariants=C08_INV, consts=consts(
         7, Shapes="{<<3,2>>}", IdSets="{{2,3,5}}", A0Choices="{3,6}" if th else "{3}", CoeffChoices="{5,0}",
-        KChoices="{2}", Deltas="1..6", Faults=ALLFAULTS, DomHDKG="{0,4,5}" if th else "{4,5}", EMIT="TRUE")))
+        KChoices="{2}", Deltas="1..6", Faults=ALLFAULTS, PairMode='"all"', DomHDKG="{0,4,5}" if th else "{4,5}", EMIT="TRUE")))
     # B: shape slice n = 4, t = 3 (and t = 4): last sender, own id largest / smallest
     sl.append(dict(name="B_shape_n4", module="C08", invariants=C08_INV, consts=consts(
         11, Shapes="{<<4,3>>, <<4,4>>}" if th else "{<<4,3>>}", IdSets="{{1,2,3,4}, {2,5,7,10}}", A0Choices="{7}",
-        CoeffChoices="{3}", KChoices="{2}", Deltas="{1,10}", Faults=ALLFAULTS, DomHDKG="{4}", EMIT="TRUE")))
+        CoeffChoices="{3}", KChoices="{2}", Deltas="{1,10}", Faults=ALLFAULTS, PairMode='"all"', DomHDKG="{4}", EMIT="TRUE")))
+    # S: shape sweep: every (n, t) up to n = 8 (thorough: 10), low and high thresholds; receiver/sender = smallest/largest
+    nmax = 10 if th else 8
+    sl.append(dict(name="S_shape_sweep", module="C08", invariants=C08_INV, timeout=3000, consts=consts(
+        13, Shapes="{<<n,t>> : n \\in 2..%d, t \\in 2..%d} \\cap {sh \\in (2..%d) \\X (2..%d) : sh[2] <= sh[1]}" % (nmax, nmax, nmax, nmax),
+        IdSets="{1..n : n \\in 2..%d}" % nmax, A0Choices="{7}", CoeffChoices="{3}", KChoices="{2}", Deltas="{1}",
+        Faults='{"none","r1field","r2delta","bothmissing"}', PairMode='"ends"', DomHDKG="{4}", EMIT="TRUE")))
     return sl
 
 
@@ -367,8 +386,8 @@ def c11_slices(tier):
     sl = []
     # A: every helper set and target (existing or new), all keys/polynomials, two blinding values
     sl.append(dict(name="A_sets_values", module="C11", invariants=C11_INV, consts=consts(
-        7, Shapes="{<<3,2>>, <<4,2>>}" if th else "{<<3,2>>}", IdSets="{{2,3,5}, {1,2,4,6}}", KeyChoices="1..6" if th else "{1,3,6}",
-        CoeffChoices=ZQ(7), DeltaChoices="{0,4}", NewIds="{1,6}", Scenarios='{"ok","bad"}', MaxExtraH="2", **base)))
+        7, Shapes="{<<3,2>>, <<4,2>>}" if th else "{<<3,2>>}", IdSets="{{2,3,5}, {1,2,4,6}}", KeyChoices="{1,3,6}",
+        CoeffChoices=ZQ(7), DeltaChoices="{0,4}", NewIds="{1,3,6}" if th else "{1,6}", Scenarios='{"ok","bad"}', MaxExtraH="2", **base)))
     # B: every blinding value
     sl.append(dict(name="B_blinding", module="C11", invariants=C11_INV, consts=consts(
         7, Shapes="{<<3,2>>, <<3,3>>}" if th else "{<<3,2>>}", IdSets="{{2,3,5}}", KeyChoices="{3}", CoeffChoices="{5}",
@@ -383,7 +402,9 @@ def c11_slices(tier):
     return sl
 
 
-C11_FATAL = {"repair1:ok", "repair2:ok", "repair3:ok", "repair1:deltas", "repair2:sigma", "repair3:id", "repair3:share",
+# (which draw goes to which helper, and hence each sigma, is the implementation's business: the statement names the
+# sum of a helper's outgoing values, their recipients, and the repaired package)
+C11_FATAL = {"repair1:ok", "repair2:ok", "repair3:ok", "repair1:delta_ids", "repair1:delta_sum", "repair3:id", "repair3:share",
              "repair3:vs", "repair3:vk", "repair3:min", "sign:ok", "aggregate:ok", "verify:ok", "*:panic"}
 
 # ------------------------------------------------------------------------ C15
@@ -406,7 +427,7 @@ def c15_slices(tier):
 # fresh 32+32 bytes per pair (scripted source consumed exactly), preimage layout (every H3 query is the
 # model's), nonce = H3 output, commitment = G*nonce
 C15_FATAL = {"commit:hiding", "commit:binding", "commit:D", "commit:E", "commit:inner_comm_eq", "preprocess:pairs",
-             "*:rng_unused", "*:rng_overrun", "*:rng_mismatch", "*:oracle_miss", "commit:ok", "preprocess:ok", "*:panic"}
+             "*:rng_unused", "*:rng_overrun", "*:oracle_miss", "commit:ok", "preprocess:ok", "*:panic"}
 
 # ------------------------------------------------------------------------ C16
 def c16_slices(tier):
@@ -427,7 +448,7 @@ def c16_slices(tier):
 C16_FATAL = {"split:shares", "split:commit", "split:vk", "split:ok", "dkg1:coeffs", "dkg1:commit", "dkg1:R", "dkg1:mu",
              "dkg1:ok", "single_sign:R", "single_sign:z", "repair1:deltas", "repair1:ok", "refresh_shares:shares",
              "refresh_shares:commit", "refresh_shares:ok", "rr_new:seed", "rr_new:alpha", "rr_new:ok", "batch:ok",
-             "*:rng_unused", "*:rng_overrun", "*:rng_mismatch", "*:panic"}
+             "*:rng_unused", "*:rng_overrun", "*:panic"}
 
 # ------------------------------------------------------------------------ C17
 C17_INV = ["InvRegen", "InvParams", "InvHonest", "InvFaulty", "InvFaultyShare", "Emit"]
@@ -515,7 +536,7 @@ def c13_slices(tier):
     sl.append(dict(name="A_n3t2", module="C13", invariants=["InvEncodable", "InvCompletes", "Emit"], consts=consts(
         11, Shape="<<3,2>>", Ids="{2,3,7}", Polys=fn({2: seq([3, 5]), 3: seq([1, 4]), 7: seq([6, 2])}),
         RPolys=fn({2: seq([4]), 3: seq([9]), 7: seq([1])}), DCoeffs="<<8>>", KNonce="2", Crash=crash,
-        Forms='{"bin","json"}', Msg="<<104,105>>", DomH3="{2,5}" if th else "{2}", DomH1="{1,5}" if th else "{5}", DomH2="{3}",
+        Forms='{"bin","json","parts"}', Msg="<<104,105>>", DomH3="{2,5}" if th else "{2}", DomH1="{1,5}" if th else "{5}", DomH2="{3}",
         DomHDKG="{4}", EMIT="TRUE")))
     sl.append(dict(name="B_n3t3", module="C13", invariants=["InvEncodable", "InvCompletes", "Emit"], consts=consts(
         11, Shape="<<3,3>>", Ids="{1,2,3}", Polys=fn({1: seq([3, 5, 1]), 2: seq([1, 4, 8]), 3: seq([6, 2, 2])}),
@@ -531,6 +552,11 @@ def c13_slices(tier):
         251, Shape="<<%d,%d>>" % (n, th_), Ids="1..%d" % n, Polys=fn({k: seq(v) for k, v in polys.items()}),
         RPolys=fn({k: seq(v) for k, v in rpolys.items()}), DCoeffs=seq([((k * 17) % 250) + 1 for k in range(th_ - 1)]), KNonce="2",
         Crash="{%s}" % ALLB, Forms='{"bin"}', Msg="<<1>>", DomH3="{2}", DomH1="{5}", DomH2="{3}", DomHDKG="{4}", EMIT="TRUE")))
+    # size sweep (spec/props/C13Size.tla): one behaviour per threshold/group size and persistence route
+    sizes = "(2..70) \\cup {100,128,129,200}" if th else "{2,17,37,65}"
+    sl.append(dict(name="S_size_sweep", module="C13Size", invariants=["InvCompletes", "InvRestored", "Emit"], timeout=3000,
+                   consts=consts(257, Sizes=sizes, Forms='{"bin","json","parts"}', Key="200", Coeff="3", NonceK="7", Msg="<<1>>",
+                                 DomH3="{77}", DomH1="{5}", DomH2="{100}", DomHDKG="{4}", EMIT="TRUE")))
     return sl
 
 
@@ -558,7 +584,7 @@ def c18_stages(ctx):
 # ------------------------------------------------------------------------ C14
 def c14_slices(tier):
     return [dict(name="A_adversarial_combinations", module="C14", invariants=["InvTotal", "Emit"], consts=consts(
-        11, Probes='{"agg_maps","sign_kp","vshare","dkg_lens","recon","repair","refresh"}', DomH3="{2,5}", DomH1="{5}",
+        11, Probes='{"agg_maps","sign_kp","vshare","dkg_lens","recon","repair","refresh","ss_double"}', DomH3="{2,5}", DomH1="{5}",
         DomH2="{3}", DomHDKG="{4}", EMIT="TRUE"))]
 
 
@@ -588,7 +614,10 @@ def c02_slices(tier):
         13, Shapes="{<<5,4>>}", IdSets="{{1,2,3,4,5}, {12,3,6,8,10}}", KeyChoices="{7}", CoeffChoices="{3}",
         RandChoices="{1}", Msgs="{<<>>, [k \\in 1..300 |-> k % 251]}", MaxExtra="1", DomH3="{4,9}", DomH1="{3}",
         DomH2="{5}", EMIT="TRUE")))
-    return sl
+    # nonces from given randomness through both entry points, batches of 1..3 pairs
+    sl.append(dict(name="G_nonce_batches", module="C15", invariants=["InvDerivation", "Emit"], consts=consts(
+        7, ShareChoices="{3}", RandChoices="{1,2}", Calls="{<<1>>, <<2>>, <<1,2>>, <<3>>}", DomH3="{2,5}", EMIT="TRUE")))
+    return _c01_defaults(sl)
 
 
 def c02_stages(ctx):
